@@ -40,6 +40,7 @@ type Engine struct {
 	decs        map[*ssa.Function]*DecSummary
 	ctxFas      map[*ssa.Function]*FuncAn
 	ctxBusy     map[*ssa.Function]bool
+	countSums   map[*ssa.Function]*CountSummary
 }
 
 func NewEngine(prog *ssa.Program, cg *callgraph.Graph, inModule func(*ssa.Function) bool, goarch string) *Engine {
@@ -48,7 +49,7 @@ func NewEngine(prog *ssa.Program, cg *callgraph.Graph, inModule func(*ssa.Functi
 		sums: map[*ssa.Function]*Summary{}, sumBusy: map[*ssa.Function]bool{}, writes: map[*ssa.Function]*WriteSet{},
 		extWrites: map[*ssa.Function]*WriteSet{}, fieldInv: map[*types.Var]fieldInvRes{},
 		callees: map[ssa.CallInstruction][]*ssa.Function{}, callers: map[*ssa.Function][]ssa.CallInstruction{},
-		paramMaybeNil: map[*ssa.Parameter]string{}, mapInv: map[string]bool{}, decs: map[*ssa.Function]*DecSummary{}, ctxFas: map[*ssa.Function]*FuncAn{}, ctxBusy: map[*ssa.Function]bool{}}
+		paramMaybeNil: map[*ssa.Parameter]string{}, mapInv: map[string]bool{}, decs: map[*ssa.Function]*DecSummary{}, ctxFas: map[*ssa.Function]*FuncAn{}, ctxBusy: map[*ssa.Function]bool{}, countSums: map[*ssa.Function]*CountSummary{}}
 	switch goarch {
 	case "386", "arm", "mips", "mipsle", "wasm":
 		e.WordBits = 32
